@@ -272,3 +272,23 @@ Proof.
   match goal with |- context [ttick ?f ?x ?t] => destruct (extT_ttick f x t) as (_ & n2 & L2 & _) end.
   exists (n2 ++ n1). rewrite L2, L1, L0, app_assoc. reflexivity.
 Qed.
+
+(* ---- 4. cancellation and close in the scheduler *)
+(* cancelling the sender whose frame is in flight ends its wait as "cancelled" (reason 2), not as expired *)
+Theorem cancel_in_flight_ends_cancelled : forall s tag d, t_holder s = Some (tag, d) ->
+  exists new, t_log (tstep s (TCancelE tag)) = new ++ TEnd tag 2 :: t_log s.
+Proof.
+  intros s tag d Hh. cbn [tstep]. rewrite Hh, Nat.eqb_refl. apply (end_wait_log s tag d 2%nat Hh).
+Qed.
+
+(* close() closes the transport: a later send() is over at once, nothing written, nothing awaited *)
+Theorem close_closes : forall s, t_open (tstep s TCloseE) = false /\ t_seq (tstep s TCloseE) = 0.
+Proof. intros s. split; reflexivity. Qed.
+
+Theorem send_after_close_writes_nothing : forall s tag, t_open s = false -> t_holder s = None -> t_queue s = [] ->
+  t_log (tstep s (TSendE tag)) = TEnd tag 3 :: TCall tag :: t_log s /\ t_holder (tstep s (TSendE tag)) = None.
+Proof.
+  intros s tag Ho Hn Hq. cbn [tstep]. unfold tsettle. cbn [mk t_queue]. rewrite Hq.
+  cbn [app length serve mk t_holder t_queue t_open t_now t_seq t_owner t_rx t_log]. rewrite Hn, Ho.
+  cbn [mk t_holder t_queue t_log]. split; reflexivity.
+Qed.
